@@ -178,10 +178,13 @@ Inductive ptoken := PDot | PLit (c : N).
 Fixpoint tokenize (s : str) : list ptoken :=
   match s with
   | [] => []
-  | 92%N :: c :: r => PLit c :: tokenize r
-  | 92%N :: [] => []
-  | 46%N :: r => PDot :: tokenize r
-  | c :: r => PLit c :: tokenize r
+  | c :: r =>
+      if (c =? 92)%N then match r with
+                         | [] => []                         (* a trailing backslash escapes nothing *)
+                         | c' :: r' => PLit c' :: tokenize r'
+                         end
+      else if (c =? 46)%N then PDot :: tokenize r
+      else PLit c :: tokenize r
   end.
 
 Fixpoint segments (ts : list ptoken) (cur : str) : list str :=
@@ -274,7 +277,7 @@ Definition missing_spec (d : value) (args : list value) : outcome value :=
 Fixpoint dedup (l : list value) (seen : list value) : list value :=
   match l with
   | [] => []
-  | x :: r => if existsb (value_serde_eqb x) seen then dedup r seen else x :: dedup r (x :: seen)
+  | x :: r => if existsb (fun s => value_serde_eqb s x) seen then dedup r seen else x :: dedup r (x :: seen)
   end.
 
 Definition count_present (d : value) (keys : list value) : nat :=
